@@ -216,14 +216,14 @@ theorem deadlock_of_deadlockB {v : Variant} {progs : List (List Op)} {sched : Li
 /-- thread 0 opens a writer on d/f and, still holding it, touches directory d; thread 1 (`other`)
 works on d/f or d concurrently -/
 def wit_progs (other : Op) : List (List Op) :=
-  [ [.openW 1 ["d", "f"], .writeFile ["d", "g"] [1], .close 1], [other] ]
+  [ [.openW 1 [[100], [102]], .writeFile [[100], [103]] [1], .close 1], [other] ]
 
 def wit_sched : List Tid := List.replicate 9 0 ++ List.replicate 10 1 ++ List.replicate 10 0
 
 /-- two threads stream a -> b and b -> a -/
 def cross_progs : List (List Op) :=
-  [ [.writeFile ["a"] [1], .writeFile ["b"] [2], .openR 1 ["a"], .openW 2 ["b"], .close 2, .close 1],
-    [.openR 1 ["b"], .openW 2 ["a"], .close 2, .close 1] ]
+  [ [.writeFile [[97]] [1], .writeFile [[98]] [2], .openR 1 [[97]], .openW 2 [[98]], .close 2, .close 1],
+    [.openR 1 [[98]], .openW 2 [[97]], .close 2, .close 1] ]
 
 def cross_sched : List Tid :=
   List.replicate 16 0 ++ List.replicate 4 1 ++ List.replicate 12 0 ++ List.replicate 12 1
